@@ -32,6 +32,7 @@ Open(s)  == [svc |-> "fwdopen", fo |-> KFO(s), ms |-> <<>>]
 Shut(s)  == [svc |-> "fwdclose", fo |-> KFO(s), ms |-> <<>>]
 End      == [svc |-> "end", ms |-> <<>>]                                     \* the peer ends the session without closing its connections
 Via(s, r) == r @@ [cid |-> <<17, 0, 0, s>>]                                 \* a request sent over the session's connection
+SasAll(x) == [Rq("sas", 1, 0 - 1, 0, "INT", <<>>) EXCEPT !.mode = "cia", !.bytes = Concat([ i \in 1 .. 8 |-> V(x) ])]      \* Set Attribute Single of all eight
 Bundle(ms) == [svc |-> "multi", tag |-> 0, mode |-> "sym", idx |-> 0 - 1, n |-> 0, off |-> 0, typ |-> "INT", vals |-> <<>>, bytes |-> <<>>, ms |-> ms]
 
 KOps == CASE Which = "torn"    -> << <<WAll(7)>>, <<RAll>> >>
@@ -41,7 +42,7 @@ KOps == CASE Which = "torn"    -> << <<WAll(7)>>, <<RAll>> >>
           [] Which = "mixed"   -> << <<WLow(50), Bundle(<<RAll, WHigh(60)>>)>>, <<WAll(9), RAll>> >>
           [] Which = "conn"    -> << <<Open(1), Via(1, WLow(70)), Shut(1)>>, <<Open(2), Via(2, RAll), Via(2, WHigh(80))>>, <<Open(3), End>> >>
           [] Which = "xtype"   -> << <<WAllX(7), WAllX(8)>>, <<RAll, RAll>> >>
-          [] Which = "attr"    -> << <<WAll(7), WAll(8)>>, <<GAS1, GAL1, GAS1>> >>
+          [] Which = "attr"    -> << <<WAll(7), SasAll(8)>>, <<GAS1, GAL1, RAll>> >>
 
 \* private ranges keep the last value their only writer wrote (C09 "no lost private write"), at the end of every execution
 PrivateKept ==
@@ -51,7 +52,7 @@ PrivateKept ==
                [] OTHER -> TRUE
 \* a multi-element read never observes part of a multi-element write (all-equal writes => all-equal reads)
 NoTornRead == \A s \in Sessions : \A i \in 1 .. Len(got[s]) :
-                 /\ (got[s][i].k = "ok" /\ Len(got[s][i].data) = 8 /\ Which \in {"torn", "three", "xtype"}) => \A a, b \in 1 .. 8 : got[s][i].data[a] = got[s][i].data[b]
+                 /\ (got[s][i].k = "ok" /\ Len(got[s][i].data) = 8 /\ Which \in {"torn", "three", "xtype", "attr"}) => \A a, b \in 1 .. 8 : got[s][i].data[a] = got[s][i].data[b]
                  \* the attribute's octets (the last 16 of the reply data: eight 16-bit elements) are those of ONE write
                  /\ (got[s][i].k = "okbytes" /\ Which = "attr") =>
                        LET d == got[s][i].data  n == Len(d) IN \A a, b \in 0 .. 7 : d[n - 15 + 2 * a] = d[n - 15 + 2 * b]
